@@ -531,6 +531,10 @@ def _charstr_variant(fn):
     tree = ast.fix_missing_locations(RW().visit(tree))
     g = dict(fn.__globals__)
     g["_sx_concat"], g["_sx_join"] = _sx_concat, _sx_join
+    if "posixpath" in g:
+        # stdlib posixpath lifted to symbolic strings from its own source (vf/pathmodel.py)
+        from vf import pathmodel
+        g["posixpath"] = pathmodel.PosixPath()
     code = compile(tree, inspect.getsourcefile(fn) or "<variant>", "exec")
     exec(code, g)
     out = g[fd.name]
